@@ -1,6 +1,6 @@
 (* Concrete object tables (dumped from real textX models of grammar A in tools/props/c10.py) used by the
    refutation of the pre-repair attribute filter and by the non-vacuity examples of Props/C10.v. *)
-From TxV Require Import Core.Base Model.FqnDefs Gen.SrcFqn Model.Fqn.
+From TxV Require Import Core.Base Model.FqnDefs Gen.SrcFqn Model.Fqn Model.FqnExt.
 
 Definition A (n : list N) (d c k : bool) (v : aval) : attr :=
   {| a_name := n; a_decl := d; a_cont := c; a_call := k; a_val := v |}.
@@ -48,3 +48,29 @@ Definition w2 : list obj := [w_model; w_package [4]; w_class [99]%N None; w_clas
 Definition t_pdc : list N := [112;46;100;46;99]%N.         (* "p.d.c" *)
 (* the same model before d.base is resolved *)
 Definition w2' : list obj := [w_model; w_package [4]; w_class [99]%N None; w_class [100]%N None; w_use None].
+
+(* ---- several models in one table: w2 followed by a library model `package p { class e; }` (root 5) *)
+Definition w_obj (cls : nat) (nm : option (list N)) (kids : list nat) (par : option nat) : obj :=
+  O cls nm ([A s_name true true false VPrim; A s_elems true true false (VMany kids); A s_pos false false false VPrim]
+            ++ match par with Some q => [A parent_name false false false (VOne (Some q))] | None => [] end).
+Definition w3 : list obj :=
+  w2 ++ [w_obj 0 None [6] None; w_obj 1 (Some [112]%N) [7] (Some 5); w_obj 2 (Some [101]%N) [] (Some 6)].
+Definition t_pe : list N := [112;46;101]%N.               (* "p.e" *)
+Definition t_cpe : list N := [99;46;112;46;101]%N.        (* "c.p.e" *)
+(* a redirection callback: class c (object 2) stands for the library model *)
+Definition w_redir (p : nat) : Model.FqnExt.rres :=
+  if Nat.eqb p 2 then Model.FqnExt.RList [5] else Model.FqnExt.RList [].
+
+(* ---- a plain Python object (class id 7, no declared attributes) hung into package p as `notes` *)
+Definition s_notes : list N := [110;111;116;101;115]%N.
+Definition s_kids : list N := [107;105;100;115]%N.
+Definition s_fn : list N := [102;110]%N.
+Definition w_py : list obj :=
+  [w_model;
+   O 1 (Some [112]%N) [A s_name true true false VPrim; A s_elems true true false (VMany []);
+                       A s_pos false false false VPrim; A parent_name false false false (VOne (Some 0));
+                       A s_notes false false false (VMany [2])];
+   O 7 (Some [110]%N) [A s_name false false false VPrim; A s_kids false false false (VMany [3]);
+                       A s_fn false false true VPrim; A parent_name false false false (VOne (Some 1))];
+   O 7 (Some [107]%N) [A s_name false false false VPrim; A s_kids false false false (VMany [])]].
+Definition t_pnk : list N := [112;46;110;46;107]%N.       (* "p.n.k" *)
